@@ -177,6 +177,28 @@ pub fn configs(tier: Tier) -> Vec<InCfg> {
             }
         }
     }
+    // v5 server: SUBSCRIBE / UNSUBSCRIBE being handled do not count against Receive Maximum
+    for &n in if tier == Tier::Quick { &[1u16][..] } else { &[1u16, 2][..] } {
+        let mut ep = EpCfg::new(Ver::V5, Role::Server);
+        ep.max_receive = n;
+        ep.handler_auto = false;
+        ep.proto_auto = false;
+        ep.hs_receive_max = Some(n);
+        v.push(InCfg {
+            ep,
+            connect_props: vec![],
+            alphabet: vec![q(1, 5), T::Sub(0), T::Unsub(0), q(2, 26)],
+            prologue: vec![],
+            max_len: if tier == Tier::Quick { 3 } else { 4 },
+            outcomes: vec![GateOutcome::Ok],
+            poutcomes: vec![GateOutcome::Ok],
+            cork: false,
+            judge: J_C12,
+            app_sends: vec![],
+            skip_connect: false,
+            known: vec![],
+        });
+    }
     let _ = PVal::Byte(0);
     v
 }
@@ -187,7 +209,7 @@ pub fn run(tier: Tier) -> i32 {
     for (i, c) in configs(tier).iter().enumerate() {
         ck.explore::<In>("inbound", i, c, &ecfg);
     }
-    ck.rule = "v3 server (default in-flight middleware), v5 server (Receive Maximum + size middleware), v5 client (receive maximum): max_receive in {1,2} (quick) / {0,1,2,3} (thorough) x max_receive_size in {0, 30 bytes, 64 KiB}; bursts of up to 3 (quick) / 4 (thorough) publishes over {q1 5 B, q1 14 B, q0 5 B, q1 12 B split in two writes, q2 26 B} against gated handlers, deliveries and completions in every order with <= 1 injection while runnable; invariants after every step: executing handlers <= max_receive, their packet bytes <= max_receive_size + largest packet; v5: a peer within Receive Maximum is never answered 0x93; drain: all gates opened => every complete publish handled with its full payload".into();
+    ck.rule = "v3 server (default in-flight middleware), v5 server (Receive Maximum + size middleware), v5 client (receive maximum): max_receive in {1,2} (quick) / {0,1,2,3} (thorough) x max_receive_size in {0, 30 bytes, 64 KiB}; bursts of up to 3 (quick) / 4 (thorough) publishes over {q1 5 B, q1 14 B, q0 5 B, q1 12 B split in two writes, q2 26 B} against gated handlers, deliveries and completions in every order with <= 1 injection while runnable; invariants after every step: executing handlers <= max_receive, their packet bytes <= max_receive_size + largest packet; v5: a peer within Receive Maximum is never answered 0x93, also while SUBSCRIBE / UNSUBSCRIBE requests are being handled (gated protocol service); drain: all gates opened => every complete publish handled with its full payload".into();
     ck.assumptions = vec!["FIFO task order of ntex-rt; nondeterminism = timing of environment events (DESIGN 2.4)".into()];
     ck.finish()
 }
